@@ -772,6 +772,22 @@ pub fn run(ctx: &Ctx) -> Report {
         "every import graph over {main, a, b, c}: each of the 6 module-to-module edges, 3 self-loops and 3 edges from main independently present or absent (4096 graphs); every import inside a module sits in its own try/catch and is followed by a use; every module prints when its body runs, defines the same global names, and reads every one of the 30 built-in names; main reads, writes and calls through each module object, imports it again under an alias and compares identity, and probes that nothing leaked. The same graphs with every module-to-module import deferred into a function `late` of the importing module, which main calls three times after loading (the 3584 graphs in which main imports something): no import meets a module still loading, every body runs once, cycles and self-imports bind the one module object, renamings by main are seen through every import. Plus placements: import inside a function called 0/1/2 times, missing and uncompilable modules (caught, uncaught, aliased), a path with a directory, two modules of the same file name in different directories (one a global of main, the other imported without an alias inside a function / block / loop body / lambda), a three-module cycle; six spellings of a path that are not in a cleaned-up form (leading `./`, doubled separators, `.` components, served by the module table under both forms): the same spelling imported again at top level, in a function and from another module is the one module, loaded once, and a cycle written with such spellings is an ImportError; imports that do not complete: an import with 59..66 calls active (the module body would be the 65th: IndexError to the importing statement, the importer's globals - also one named like a built-in - untouched, the module importable afterwards) and a module whose body throws while a condition holds (every attempt runs the body again, the first attempt after the condition is gone loads it, once; directly, from a fiber, through a wrapper module). Plus 48 sequences of three or four programs on one interpreter (a module loaded by the first program - which ends normally or with one of five uncaught errors, optionally followed by a program that does not compile - is still loaded, with its state, for the next programs, imported at top level, in a function, through another module, under an alias). Plus `reimport_changes_nothing`: a module that defines globals under names built-ins also have and receives attributes from outside, imported again in every ordered pair of six ways (alias, same name, in a function, in a fiber, in try, through another module) with the module's and the importer's view printed after each. Plus exceptions that cross module frames: a module body that throws / imports a missing, an uncompilable, its importing (cycle) or a throwing module without a handler, or a function of another module that throws / fails an import / throws through its own finally; caught in the importer (main or a module) directly, through a function, or after a finally block that itself uses globals; straight after the handler the importer reads, defines and assigns its own globals and the check confirms where they landed. Plus fibers whose code lives in another module (made by a function of that module, stored in it, or built here from its function), run to their end from main or from a module that then uses its own globals at once. non-trivial = at least two module bodies ran, or an import failed.",
         json!({"modules": 4, "graphs": total}),
     );
+    // programs as modules
+    {
+        let hooks2 = Hooks { attribute: &|_c, _m, _o, _mm| None, nontrivial: &|_c, m| m.out.len() >= 2, fuel: 2_000_000 };
+        let corpus = crate::metamorph::standard_corpus(if thorough { 1 } else { 4 });
+        let cases2 = crate::metamorph::as_module_cases("program_as_the_body_of_a_module", &corpus);
+        let n2 = cases2.len();
+        let st2 = mcheck::run(ctx, cases2.into_iter(), &hooks2);
+        report.cov(
+            "programs_as_modules",
+            json!({
+                "rule": "metamorphic (the module law): every program of the standard corpus (C05/C06/C07/C08/C18 generators) is made the top-level code of a module that an otherwise empty main program imports; printed lines and outcome must be what M-eval gives for the program run as the main program (globals are the module's, built-ins are there, closures, classes, fibers, handlers and loop exits work in a frame that is not the script's)",
+                "cases": n2, "executions": st2.executions, "distinct": st2.distinct.len(), "skipped_outside_model": st2.unsupported,
+            }),
+        );
+        report.violations.extend(st2.violations);
+    }
     // several programs on one interpreter
     let across = across_programs();
     let n_across = across.len();
